@@ -1,5 +1,6 @@
 import J5V.Bcl.Parser
 import J5V.Bcl.LexerProofs
+import J5V.Bcl.LexLineProofs
 /-!
 # Walker lemmas for C11: no panic, fuel, node / diagnostic positions.
 
@@ -21,16 +22,28 @@ structure WInv (w : W) : Prop where
   qCur : Q w.currentPos
   qRest : ∀ t ∈ w.rest, Q t.start ∧ Q t.end_
 
-/-- the walker moved from `w` to `w'` -/
+/-- the walker moved from `w` to `w'`, dropping the tokens `d` -/
 structure WStep (w w' : W) : Prop where
   inv : WInv Q w'
   mono : w.currentPos ≤ w'.currentPos
   len : w'.rest.length ≤ w.rest.length
+  drop : ∃ d, w.rest = d ++ w'.rest ∧ (∀ t ∈ d, t.end_ ≤ w'.currentPos) ∧
+    w'.prev = d.getLast?.or w.prev
 
-theorem WStep.refl {w : W} (h : WInv Q w) : WStep Q w w := ⟨h, Pos.le_refl _, Nat.le_refl _⟩
+theorem WStep.refl {w : W} (h : WInv Q w) : WStep Q w w :=
+  ⟨h, Pos.le_refl _, Nat.le_refl _, [], rfl, (fun t ht => by cases ht), rfl⟩
 
-theorem WStep.trans {w1 w2 w3 : W} (h1 : WStep Q w1 w2) (h2 : WStep Q w2 w3) : WStep Q w1 w3 :=
-  ⟨h2.inv, Pos.le_trans h1.mono h2.mono, Nat.le_trans h2.len h1.len⟩
+theorem WStep.trans {w1 w2 w3 : W} (h1 : WStep Q w1 w2) (h2 : WStep Q w2 w3) : WStep Q w1 w3 := by
+  obtain ⟨d1, e1, f1, g1⟩ := h1.drop
+  obtain ⟨d2, e2, f2, g2⟩ := h2.drop
+  refine ⟨h2.inv, Pos.le_trans h1.mono h2.mono, Nat.le_trans h2.len h1.len, d1 ++ d2,
+    by rw [e1, e2]; simp, ?_, ?_⟩
+  · intro t ht
+    rcases List.mem_append.mp ht with h | h
+    · exact Pos.le_trans (f1 t h) h2.mono
+    · exact f2 t h
+  · rw [g2, g1, List.getLast?_append]
+    cases d2.getLast? <;> cases d1.getLast? <;> rfl
 
 /-- a token handed out by the walker at state `w` (a real token, or the synthesised EOF) -/
 structure TokOK (lo : Pos) (t : Token) : Prop where
@@ -115,7 +128,7 @@ theorem popToken_spec (w : W) :
     have hord := hw.ordered
     rw [hr] at hord
     have hord' := List.pairwise_cons.mp hord
-    refine ⟨⟨⟨Or.inl (by simp), hord'.2, ?_, ?_, ?_, ?_, ?_, ?_⟩, ?_, ?_⟩, ?_, ?_, ?_, ?_⟩
+    refine ⟨⟨⟨Or.inl (by simp), hord'.2, ?_, ?_, ?_, ?_, ?_, ?_⟩, ?_, ?_, ?_⟩, ?_, ?_, ?_, ?_⟩
     · intro u hu; exact hw.spans u (by rw [hr]; simp [hu])
     · intro u hu; exact hord'.1 u hu
     · intro u hu; exact hw.noEof u (by rw [hr]; simp [hu])
@@ -124,6 +137,7 @@ theorem popToken_spec (w : W) :
     · intro u hu; exact hw.qRest u (by rw [hr]; simp [hu])
     · exact Pos.le_trans (hw.after t hmem) (hw.spans t hmem)
     · simp [hr]
+    · exact ⟨[t], by simp [hr], (fun u hu => by simp at hu; subst hu; exact Pos.le_refl _), rfl⟩
     · exact ⟨hw.after t hmem, hw.spans t hmem, (hw.qRest t hmem).1, (hw.qRest t hmem).2⟩
     · exact Pos.le_refl _
     · simp [W.nextType, hr]
